@@ -16,6 +16,8 @@ type Parser struct {
 	rootNode       ast.Vertex
 	errHandlerFunc func(*errors.Error)
 	builder        *position.Builder
+
+	verif verifState
 }
 
 // NewParser creates and returns new Parser
@@ -29,6 +31,7 @@ func NewParser(lexer *scanner.Lexer, config conf.Config) *Parser {
 
 func (p *Parser) Lex(lval *yySymType) int {
 	t := p.Lexer.Lex()
+	p.verifLex(t)
 
 	p.currentToken = t
 	lval.token = t
